@@ -20,7 +20,7 @@ EXPLANATION = ("The solver chooses which accepted input word is marked; its watc
 
 class TwoPortStub(Module):
     """write port + read port, one in-order queue; stores bit B of every word of a small region"""
-    def __init__(self, wport, rport, B, nwords, depth=3, min_latency=2):
+    def __init__(self, wport, rport, B, nwords, depth=3, min_latency=2, lanes=None):
         self.inputs = {}
         self.bads = {}
         dw = len(wport.wdata.data)
@@ -73,11 +73,25 @@ class TwoPortStub(Module):
         resp_r = Signal()
         self.comb += [resp_w.eq(resp & q_we[0]), resp_r.eq(resp & ~q_we[0])]
         self.comb += [wport.wdata.ready.eq(resp_w), rport.rdata.valid.eq(resp_r)]
-        wbit = Array([wport.wdata.data[i] for i in range(dw)])[B]
-        for i in range(nwords):
-            self.sync += If(resp_w & (q_a[0] == i) & (wport.wdata.we != 0), mem[i].eq(wbit))
-        rbit = Array(mem)[q_a[0]]
-        self.comb += rport.rdata.data.eq(Cat(*[Mux(B == i, rbit, other[i]) for i in range(dw)]))
+        if lanes is None:
+            wbit = Array([wport.wdata.data[i] for i in range(dw)])[B]
+            for i in range(nwords):
+                self.sync += If(resp_w & (q_a[0] == i) & (wport.wdata.we != 0), mem[i].eq(wbit))
+            rbit = Array(mem)[q_a[0]]
+            self.comb += rport.rdata.data.eq(Cat(*[Mux(B == i, rbit, other[i]) for i in range(dw)]))
+        else:
+            # port word wider than the stream word: the watched bit of every narrow word inside the port word is stored
+            memk = [[Signal(name_override="stub_mem%d_%d" % (i, k)) for k in range(len(lanes))] for i in range(nwords)]
+            for i in range(nwords):
+                for k, ln in enumerate(lanes):
+                    self.sync += If(resp_w & (q_a[0] == i) & (wport.wdata.we != 0), memk[i][k].eq(wport.wdata.data[ln]))
+            bits = []
+            for j in range(dw):
+                if j in lanes:
+                    bits.append(Array([memk[i][lanes.index(j)] for i in range(nwords)])[q_a[0]])
+                else:
+                    bits.append(other[j])
+            self.comb += rport.rdata.data.eq(Cat(*bits))
         bad = _bad_adder(self, self.bads)
         bad("both_ports_accepted_in_one_cycle(stub_error)", both)
         bad("write_data_taken_but_none_offered", resp_w & ~wport.wdata.valid)
@@ -115,7 +129,12 @@ def fifo_bench(name, with_bypass=False, nwords=4, data_width=8, port_dw=8, pre=2
     top.submodules.dut = dut
     B = Signal(max=data_width, name_override="BITSEL")
     # position of the watched bit inside the port word: the same lane of the first narrow word (ratio 1 in these benches)
-    top.submodules.stub = stub = TwoPortStub(wp, rp, B, nwords)
+    ratio = port_dw // data_width
+    if ratio > 1:
+        assert bit is not None, "wide port words need a concrete watched bit"
+        top.submodules.stub = stub = TwoPortStub(wp, rp, B, nwords, lanes=[bit + k * data_width for k in range(ratio)])
+    else:
+        top.submodules.stub = stub = TwoPortStub(wp, rp, B, nwords)
     inputs = {"sink_valid": dut.sink.valid, "sink_data": dut.sink.data, "source_ready": dut.source.ready}
     inputs.update(stub.inputs)
     sacc = Signal()
@@ -167,6 +186,8 @@ CONFIGS = {
     "core_4words_dma2_bit0": (dict(core_only=2, bit=0), 14, 20, "qt"),
     "core_2words_dma2_bit5": (dict(core_only=2, nwords=2, bit=5), 14, 20, "qt"),
     "bypass_2words_dma2_bit0": (dict(with_bypass=True, nwords=2, dma=2, bit=0), 14, 24, "qt"),
+    "ratio2_bypass_2words_dma2_bit0": (dict(with_bypass=True, nwords=2, dma=2, bit=0, data_width=8, port_dw=16, pre=4, post=4), 19, 24, "qt"),
+    "ratio2_nobypass_2words_dma2_bit0": (dict(with_bypass=False, nwords=2, dma=2, bit=0, data_width=8, port_dw=16, pre=4, post=4), 0, 24, "t"),
     "nobypass_4words_bit0": (dict(with_bypass=False, bit=0), 0, 18, "t"),
     "bypass_4words_bit0": (dict(with_bypass=True, bit=0), 0, 18, "t"),
     "bypass_4words_bit7": (dict(with_bypass=True, bit=7), 0, 18, "t"),
@@ -178,12 +199,20 @@ BENCHES = {n: partial(fifo_bench, n, **c[0]) for n, c in CONFIGS.items()}
 def run(ctx):
     ctx.assume("producer holds valid/data until accepted; consumer ready free; one marked word, watched bit 1 only in that word")
     ctx.assume("memory: write and read port served in global acceptance order by one in-order stub (<=3 queued, latency >= 2, "
-               "one command accepted per cycle); DRAM region 2-4 words; data width ratio 1; pre/post FIFO depth 2")
+               "one command accepted per cycle); DRAM region 2-4 words; data width ratio 1 (ratio2_* benches: 8-bit stream on a 16-bit port, "
+               "pre/post FIFO depth 4, the stub stores the watched bit of both narrow words); pre/post FIFO depth 2")
     ctx.assume("full LiteDRAMFIFO benches keep the internal DMA FIFO depth 16 except '*_dma2_*', where the inner _LiteDRAMFIFO is built "
                "with writer/reader_fifo_depth=2 through its own keyword arguments so that a DRAM round trip and the return to bypass "
                "mode fit in the window")
     for n, (kw, kq, kt, tiers) in CONFIGS.items():
         if ctx.only and not ctx.only.search(n):
+            continue
+        if n.startswith("ratio2_bypass"):
+            # known finding (bypass with a stream narrower than the port): only the stream-preservation monitors, from the depth at
+            # which it shows
+            ctx.add(n, kq if ctx.tier == "quick" else kt, timeout=900, cover_required=False, min_K=14, first_chunk=14, chunk=1,
+                    bads=["output_word_without_input_word", "marked_word_not_at_its_position_in_the_output_stream",
+                          "marked_word_appears_at_another_output_position"])
             continue
         if ctx.tier == "quick" and "q" in tiers:
             ctx.add(n, kq, timeout=1200, cover_required=False, min_K=min(13, kq - 2), chunk=1)
